@@ -38,9 +38,13 @@ FLOORS = {}
 # ---------------------------------------------------------------------------------------------
 # case -> files + argv + expected sample lists
 
-def wrap(value, path):
-    for k in reversed(path):
-        value = {k: value}
+def wrap(value, path, decoy=False):
+    """value under the nested keys of path.  decoy: every object on the way also gets a key that is literally the dotted
+    rest of the path (a lookup is a dot-separated path of keys, so such a key cannot be addressed and must not be chosen)"""
+    for i in range(len(path) - 1, -1, -1):
+        value = {path[i]: value}
+        if decoy and len(path) - i >= 2:
+            value[".".join(path[i:])] = [{"decoy_key": "decoy"}]
     return value
 
 
@@ -66,7 +70,7 @@ def materialise(case, d):
             for fi, f in enumerate(spec["files"]):
                 doc["part%d" % fi] = f["samples"] if f["as_list"] else f["samples"][0]
             with open(os.path.join(d, fname), "w", encoding="utf-8") as fp:
-                json.dump(wrap(doc, spec["lookup"]), fp, ensure_ascii=ascii_input)
+                json.dump(wrap(doc, spec["lookup"], spec.get("decoy", False)), fp, ensure_ascii=ascii_input)
             for fi, f in enumerate(spec["files"]):
                 m_args += ["-m", name, ".".join(spec["lookup"] + ["part%d" % fi]), fname]
                 per_model.setdefault("m", []).append((name, "m", [f["samples"] if f["as_list"] else [f["samples"][0]]]))
@@ -83,7 +87,7 @@ def materialise(case, d):
             else:
                 fname = os.path.join(sub, "f%d_%d%s" % (n, fi, ext)) if sub else "f%d%s" % (n, ext)
             payload = f["samples"] if f["as_list"] else f["samples"][0]
-            doc = wrap(payload, spec["lookup"])
+            doc = wrap(payload, spec["lookup"], spec.get("decoy", False) and fmt != "ini")
             with open(os.path.join(d, fname), "w", encoding="utf-8") as fp:
                 if fmt == "ini":
                     write_ini(fp, doc)
@@ -139,8 +143,19 @@ def write_ini(fp, doc):
     cp.write(fp)
 
 
+GENERATOR_PATHS = {"attrs": "json_to_models.models.attr.AttrsModelCodeGenerator",
+                   "dataclasses": "json_to_models.models.dataclasses.DataclassModelCodeGenerator",
+                   "pydantic": "json_to_models.models.pydantic.PydanticModelCodeGenerator",
+                   "base": "json_to_models.models.base.GenericModelCodeGenerator"}
+
+
 def opts_argv(opts):
     a = cliargs.option_args(opts)
+    if opts.get("custom_generator") and opts["fw"] in GENERATOR_PATHS:
+        # the same generator class named through the documented -f custom --code-generator PATH route; its keyword arguments
+        # then arrive as the raw strings of --code-generator-kwargs (meta=true is a non-empty string: on)
+        i = a.index("-f")
+        a[i:i + 2] = ["-f", "custom", "--code-generator", GENERATOR_PATHS[opts["fw"]]]
     if opts.get("disabled"):
         a += ["--disable-str-serializable-types"] + list(opts["disabled"])
     return a
@@ -162,6 +177,7 @@ def library_opts(opts):
     if opts["fw"] not in ("attrs", "dataclasses", "base"):
         pass
     o.pop("disabled", None)
+    o.pop("custom_generator", None)
     return o
 
 
@@ -286,7 +302,11 @@ def check_with(case, driver):
                     f0 = [a for a in argv_in if not a.startswith("-")][-1]
                     if not any(ch in f0 for ch in "*?"):
                         pname = case["specs"][0]["model"] if len(f0) % 2 else "Earlier"     # same model name in half of the cases
-                        prior = ["-m", pname, f0, "--merge", "percent_1", "number_1", "-f", "attrs", "--max-strings-literals", "1"] + \
+                        prior = ["-m", pname, f0, "--merge", "percent_1", "number_1", "--dict-keys-regex", ".*", "n_.*",
+                                 "--dict-keys-fields", "data", "items", *case["specs"][0]["lookup"][:1],
+                                 "-f", "attrs", "--max-strings-literals", "1", "-s", "nested", "--strings-converters",
+                                 "--disable-unicode-conversion", "--preamble", "# EARLIER = 1",
+                                 "--code-generator-kwargs", "meta=true"] + \
                             (["-i", case["format"]] if case["format"] != "json" else [])
                 elif case.get("prior_failed_parse"):
                     # the same Cli object was used before for a command that failed after its input had been loaded
@@ -398,6 +418,8 @@ def cases(draw, tier="quick", formats=("json", "json", "json", "yaml", "ini")):
                 as_list = draw(st.booleans()) or len(smp) != 1
                 files.append({"as_list": as_list, "samples": smp})
             spec = {"model": name, "via": via, "lookup": lookup, "files": files}
+            if len(lookup) >= 2 and draw(st.booleans()):
+                spec["decoy"] = True
             if via == "glob":
                 spec["glob_shape"] = draw(st.sampled_from(["flat", "flat", "deep", "question", "recursive"]))
             specs.append(spec)
@@ -415,6 +437,7 @@ def cases(draw, tier="quick", formats=("json", "json", "json", "yaml", "ini")):
     o["sreg"] = draw(st.sampled_from([list(pl.DEFAULT_SREG), list(pl.FULL_SREG)]))
     o["dkr"] = [x for x in o["dkr"] if not x.startswith("-")]
     o["disabled"] = draw(st.sampled_from([[], [], [], ["int"], ["float", "bool"], ["IsoDateString"], ["date", "time"]]))
+    o["custom_generator"] = draw(st.sampled_from([False, False, False, True]))
     if o["nested"] and len(names) > 1:
         o["nested"] = draw(st.booleans())
     if fmt != "ini" and draw(st.integers(0, 5)) == 0:
@@ -435,6 +458,14 @@ def cases(draw, tier="quick", formats=("json", "json", "json", "yaml", "ini")):
         if o["fw"] == "attrs":
             o["fw"] = "dataclasses"
         o["dkr"], o["dkf"] = [], []
+    if fmt != "ini" and draw(st.integers(0, 9)) == 0:
+        # an object whose keys are split between two --dict-keys-regex patterns: every key matches one of them, no pattern
+        # matches them all, so it stays a model (the library wants all keys to match one and the same pattern)
+        pats = draw(st.permutations([(r"n_\d+", ["n_1", "n_22"]), (r"[ab]", ["a", "b"]), (r"\d+", ["7", "10"]), (r"x_.*", ["x_q", "x_"])]))[:2]
+        split = {k: draw(st.sampled_from([1, "s", 2.5])) for _, ks in pats for k in ks[:draw(st.integers(1, 2))]}
+        whole = {k: 1 for k in pats[0][1]}
+        specs[0]["files"][0] = {"as_list": True, "samples": [{"split_keys": split, "whole": whole, "id": 1}]}
+        o["dkr"], o["dkf"] = [pats[0][0], pats[1][0]], []
     if fmt != "ini" and draw(st.integers(0, 7)) == 0:
         # three root models whose similarity to the *union* of the two others differs from the similarity to each of them:
         # merging once over the original key sets (documented pipeline) differs from any incremental merge per model
@@ -467,6 +498,8 @@ def valid(case):
             return False
         o = dict(case["opts"])
         dis = o.pop("disabled", [])
+        if not isinstance(o.pop("custom_generator", False), bool):
+            return False
         if not all(x in list(ACTUAL) + list(ACTUAL.values()) for x in dis):
             return False
         if len(o.get("sreg", [])) not in (3, 6):
